@@ -155,6 +155,14 @@ def abs_apply(a, st):
         uniq = _keys_disjoint(a, b)
         return a.clone(elems=e, n=a.n + b.n,
                        items=a.items and b.items and uniq, keys=a.keys and b.keys and uniq)
+    if op == 'keyzip':
+        # key_zip with a partner that has the same keys in another order
+        if not (a.keys and a.indexable and a.sized and a.n and a.elems is not None):
+            return None
+        if any(not x for x in a.elems) or len({x[0] for x in a.elems}) != len(a.elems):
+            return None
+        off = st.get('offset', 300)
+        return a.clone(elems=[x + (off + x[0],) for x in a.elems])
     if op == 'intersperse':
         if not a.sized or not a.n or not st['n']:
             return None
@@ -242,7 +250,7 @@ def _rand_slice(rng, n):
 def gen_upstream_stage(rng, a, sid, single_path):
     """Propose one upstream stage for abstract input a (may be invalid)."""
     ops = ['map', 'map', 'slice', 'batch', 'items', 'shuffle', 'sort', 'cache',
-           'concat', 'zip', 'filter_eager', 'reshuffle', 'intersperse']
+           'concat', 'zip', 'filter_eager', 'reshuffle', 'intersperse', 'keyzip']
     if single_path:
         ops += ['filter_lazy', 'local_shuffle', 'fragment_unbatch']
     op = rng.choice(ops)
@@ -271,6 +279,8 @@ def gen_upstream_stage(rng, a, sid, single_path):
         return [{'op': 'concat', 'n': rng.randrange(1, 4),
                  'kind': 'dict' if a.keys else 'list', 'offset': 100,
                  'map': sid if rng.random() < 0.5 else None}]
+    if op == 'keyzip':
+        return [{'op': 'keyzip', 'offset': 300, 'map': sid if rng.random() < 0.5 else None}]
     if op == 'intersperse':
         return [{'op': 'intersperse', 'n': rng.choice([n, n, 1, 2, 3]) or 1,
                  'kind': 'dict' if a.keys else 'list', 'offset': 100,
@@ -365,8 +375,9 @@ def gen_desc(rng, *, max_n=8, min_n=0, max_up=3, max_down=2, par_kw=None,
                 for st in sts:
                     # every concatenated / zipped partner gets its own id (and
                     # key) range: duplicate keys are a loud refusal of keys()
-                    if st['op'] in ('concat', 'zip', 'intersperse'):
-                        st['offset'] = 100 * (j + 1) + (50 if st['op'] == 'zip' else 0)
+                    if st['op'] in ('concat', 'zip', 'intersperse', 'keyzip'):
+                        st['offset'] = 100 * (j + 1) + (50 if st['op'] == 'zip' else 0) + \
+                            (70 if st['op'] == 'keyzip' else 0)
                 b = a
                 for st in sts:
                     b = abs_apply(b, st) if b is not None else None
